@@ -87,7 +87,8 @@ CLAIMED = {
              "'every entry was built for a site with that key' holds after every history of constructions and closures, and "
              "under it every lookup returns exactly what a direct build returns (C13_transparent, C13_history); Release leaves "
              "no entry owned by the closed WAF and keeps others' values. Tied to /repo by `memo`: configurations reusing the "
-             "same strings in different roles built alone vs in shared histories, plus the shape of every live cache key.",
+             "same strings in different roles built alone vs in shared histories, plus the shape of every live cache key; two monitors beside it: "
+             "`tfwrap` (65 355 chains registered by other WAFs) and `twolog` (several WAFs alive, each audit record in its own WAF's file).",
         note=_TB + "The operators themselves are not modelled in this engine (monitor: behaviour alone == behaviour in history).",
         ref="6/C13", engine="memo"),
     "C19": dict(
@@ -161,7 +162,8 @@ CLAIMED = {
              "stored exactly the data; an upload error raises MULTIPART_STRICT_ERROR; a failed body read sets REQBODY_ERROR and "
              "leaves REQUEST_BODY unpopulated; every temp file that exists is registered (invariant over every script), and "
              "after Close no temp file exists or Close returned an error. Tied to /repo by the `fault` sweep: strace-injected "
-             "syscall failures into scripted real transactions, report compared with the model.",
+             "syscall failures into scripted real transactions, report compared with the model; beside it the `decode` profile bodyerr and the "
+             "`rderr` monitor (a body reader that fails before the limit must make the call report an error, whatever the error wraps).",
         note=_TB + "Partial: only failures at the modelled system calls, one per run in the sweep; strace (ptrace) is part of "
                    "the trusted base of this check.",
         ref="6/C20", engine="fault"),
